@@ -47,6 +47,9 @@ pub struct SLine {
     /// instructions is `effect_equiv[..e]` (default: the effect statements themselves)
     pub injectable: bool,
     pub effect_equiv: Option<Vec<String>>,
+    /// for `Fail::Run(idx)`: statements equivalent to what the failing statement itself completed
+    /// before it failed (assignments made by a function it called)
+    pub partial_equiv: Option<Vec<String>>,
 }
 
 impl SLine {
@@ -68,6 +71,7 @@ impl SLine {
             "has_value": self.has_value,
             "injectable": self.injectable,
             "effect_equiv": self.effect_equiv,
+            "partial_equiv": self.partial_equiv,
         })
     }
     pub fn from_json(v: &Value) -> SLine {
@@ -86,6 +90,7 @@ impl SLine {
             has_value: v["has_value"].as_bool().unwrap_or(false),
             injectable: v["injectable"].as_bool().unwrap_or(false),
             effect_equiv: v["effect_equiv"].as_array().map(|a| a.iter().map(|s| s.as_str().unwrap_or("").to_string()).collect()),
+            partial_equiv: v["partial_equiv"].as_array().map(|a| a.iter().map(|s| s.as_str().unwrap_or("").to_string()).collect()),
         }
     }
 }
@@ -564,8 +569,11 @@ pub fn run_session(spec: &SessionSpec, verbose: bool) -> SessionResult {
                         poisoned.push(n);
                     }
                 }
-                if idx > 0 {
+                if idx > 0 || line.partial_equiv.is_some() {
                     p.extend(line.stmts[..idx].iter().map(|s| s.src.clone()));
+                    if let Some(pe) = &line.partial_equiv {
+                        p.extend(pe.iter().cloned());
+                    }
                     // sanity: the completed part must succeed on its own
                     let m2 = model_eval(&p, None);
                     if !m2.outcome.is_ok() {
@@ -637,10 +645,11 @@ fn line(label: &str, stmts: Vec<SStmt>, fail: Fail, has_value: bool, injectable:
         has_value,
         injectable,
         effect_equiv: None,
+        partial_equiv: None,
     }
 }
 
-pub const ALPHABET: usize = 27;
+pub const ALPHABET: usize = 28;
 
 /// Template `t` at session position `pos` (names are position-based, so never re-declared).
 fn template(t: usize, pos: usize, env: &mut GEnv) -> SLine {
@@ -822,6 +831,30 @@ fn template(t: usize, pos: usize, env: &mut GEnv) -> SLine {
                 false,
                 false,
             )
+        }
+        27 => {
+            // a function changes globals and then fails: the assignments it completed stay
+            let z = format!("z{}", pos);
+            match (env.latest("int"), env.latest("arr")) {
+                (Some(n), arr) => {
+                    let mut body = format!("{n} = {n} + 5;", n = n);
+                    let mut equiv = vec![format!("{n} = {n} + 5;", n = n)];
+                    if let Some(a) = arr {
+                        body.push_str(&format!(" {}[0] = string(3);", a));
+                        equiv.push(format!("{}[0] = string(3);", a));
+                    }
+                    let mut l = line(
+                        "call-assigns-then-fails",
+                        vec![st(&format!("functie {}() {{ {} antwoord [1][9]; }};", z, body), true), st(&format!("{}();", z), false)],
+                        Fail::Run(1),
+                        false,
+                        false,
+                    );
+                    l.partial_equiv = Some(equiv);
+                    l
+                }
+                (None, _) => template(0, pos, env),
+            }
         }
         26 => {
             // a block at the top level with a variable of its own (its slot is free again afterwards)
@@ -1251,6 +1284,40 @@ impl<'a> SGen<'a> {
                     stmts.push(s);
                     if let Some((name, ty, ml)) = d {
                         self.add(&name, ty, ml);
+                    }
+                }
+                if self.rng.chance(1, 4) && !self.globals.is_empty() {
+                    // a function changes globals (1-3 assignments) and then fails: what it completed stays
+                    let a = self.counters.1;
+                    self.counters.1 += 1;
+                    let mut equiv: Vec<String> = Vec::new();
+                    for _ in 0..(1 + self.rng.usize(3)) {
+                        for _try in 0..6 {
+                            let before = self.globals.len();
+                            let (s2, d, lab) = self.atomic_stmt();
+                            self.globals.truncate(before);
+                            let _ = d;
+                            if lab == "assign" || lab == "elem-assign" || lab == "str-elem-assign" {
+                                equiv.push(s2.src);
+                                break;
+                            }
+                        }
+                    }
+                    self.line_funs.clear();
+                    if !equiv.is_empty() {
+                        let fail = self.rng.pick(RUN_FAILS).to_string();
+                        let deep = self.rng.chance(1, 2);
+                        let def = if deep {
+                            format!("functie f{a}() {{ functie diep() {{ {fail} 0 }}; {body} diep(); 1 }};", a = a, fail = fail, body = equiv.join(" "))
+                        } else {
+                            format!("functie f{a}() {{ {body} {fail} 1 }};", a = a, fail = fail, body = equiv.join(" "))
+                        };
+                        stmts.push(st(&def, true));
+                        let idx = stmts.len();
+                        stmts.push(st(&format!("f{}();", a), false));
+                        let mut l = line("call-assigns-then-fails", stmts, Fail::Run(idx), false, false);
+                        l.partial_equiv = Some(equiv);
+                        return l;
                     }
                 }
                 let bad = match self.rng.below(4) {
